@@ -135,6 +135,14 @@ Example C11_user_view :
   (match dispatched ["help"; "nosuch"] with Some (DErr e) => Some (e_kind e) | _ => None end) = Some ENoHelpTopic.
 Proof. split; [|split]; vm_compute; reflexivity. Qed.
 
+(* the help command with a topic: the state after ["help"; "deploy"] has the help command's level on
+   top of the root level, and `deploy` is a key of the root's command table *)
+Definition st11t := walked ["help"; "deploy"].
+Example C11_help_topic_hyps :
+  (exists pl, up st11t = [pl] /\ exists c, alookup (tk "deploy") (n_cmds (lv_node pl)) = Some c) /\
+  (match dispatched ["help"; "deploy"] with Some (DHelp _) => true | _ => false end) = true.
+Proof. split; [eexists; split; [vm_compute; reflexivity | eexists; vm_compute; reflexivity] | vm_compute; reflexivity]. Qed.
+
 Definition st11h := walked ["deploy"; "--help"].
 Example C11_help_wins_hyps :
   called (store st11h) (n_opts root) (ni_helpname (n_info (cur st11h))) = true /\
